@@ -123,6 +123,52 @@ def items():
                     continue
                 out.append(("fea:generated:%s%s" % ("+".join(scripts), ":TRK" if with_lang else ""), fea_item(fea_multi(scripts, with_lang))))
 
+    # AAT 'morx' ligature subtables whose state table carries several DIFFERENT ligature action lists of
+    # the same length (the writer shares action suffixes through a dict / set keyed by the lists)
+    def morx_xml(glyphs, steps):
+        L = ['<Version value="2"/>', '<Reserved value="0"/>', '<MorphChain index="0">', '<DefaultFlags value="0x00000001"/>', '<MorphSubtable index="0">',
+             '<TextDirection value="Horizontal"/>', '<ProcessingOrder value="LayoutOrder"/>', '<SubFeatureFlags value="0x00000001"/>', '<LigatureMorph>', '<StateTable>']
+        ncls = 4 + len(glyphs)
+        L += ['<GlyphClass glyph="%s" value="%d"/>' % (g, 4 + i) for i, g in enumerate(glyphs)]
+        for state in range(3):
+            L.append('<State index="%d">' % state)
+            for cls in range(ncls):
+                L.append('<Transition onGlyphClass="%d">' % cls)
+                if cls == 4 and state < 2:
+                    L += ['<NewState value="2"/>', '<Flags value="SetComponent"/>']
+                elif cls >= 4 and state == 2:
+                    L += ['<NewState value="0"/>', '<Flags value="SetComponent"/>']
+                    L += ['<Action GlyphIndexDelta="%d"/>' % ((cls - 4) + 10 * k + (cls if k else 0)) for k in range(steps[(cls - 4) % len(steps)])]
+                else:
+                    L.append('<NewState value="0"/>')
+                L.append("</Transition>")
+            L.append("</State>")
+        L.append("<LigComponents>")
+        L += ['<LigComponent index="%d" value="%d"/>' % (i, i) for i in range(8)]
+        L += ["</LigComponents>", "<Ligatures>"]
+        L += ['<Ligature glyph="%s" index="%d"/>' % (g, i) for i, g in enumerate(glyphs)]
+        L += ["</Ligatures>", "</StateTable>", "</LigatureMorph>", "</MorphSubtable>", "</MorphChain>"]
+        return L
+
+    def morx_item(nglyphs, steps):
+        def run():
+            from fontTools.misc.testTools import parseXML
+            from fontTools.ttLib import newTable
+
+            glyphs = ["a", "b", "c", "d", "e", "f", "g"][:nglyphs]
+            font = tinyfont.build({"kind": "ttf", "shapes": "box", "glyphs": glyphs})
+            table = newTable("morx")
+            for name, attrs, content in parseXML(morx_xml(glyphs, steps)):
+                table.fromXML(name, attrs, content, font=font)
+            font["morx"] = table
+            return save(font)
+
+        return run
+
+    for nglyphs in (3, 5, 7):
+        for steps in ((2,), (1, 2), (2, 3, 2)):
+            out.append(("aat:morx-ligature:%dglyphs:steps=%s" % (nglyphs, "".join(map(str, steps))), morx_item(nglyphs, steps)))
+
     # subsetting
     from fontTools import subset
 
